@@ -28,7 +28,15 @@ class Analyzer:
         self.in_progress: set = set()
         self.summaries: dict = {}
         self.stats = {"paths": 0, "summaries": 0, "atom_calls": 0, "codec_calls": 0, "inlined": 0}
+        self.log: dict = {}  # (direction, kind, stream kind, site, detail) -> count
+        self.raises: dict = {}  # (direction, exception ref, site, root) -> count
+        self.handled: dict = {}
+        self.functions: set = set()
+        self.direction = "?"
+        self.root = "?"
+        self.path_base = 0
         interp.call_hook = self.hook
+        interp.enter_hook = self.functions.add
 
     # ------------------------------------------------------------------ hook
     def hook(self, fn, args, kwargs, run, node, higher_order):
@@ -142,7 +150,95 @@ class Analyzer:
         paths = I.explore(lambda run: I.call_function(f, [], dict(kwargs), run, None), max_paths=600)
         self.stats["paths"] += len(paths)
         self.stats["summaries"] += 1
+        self.record(paths)
         return paths
+
+    # ------------------------------------------------------------------ effect log (E4 / E5 input)
+    def exc_ref(self, cls):
+        return cls.name if isinstance(cls, LibClass) else cls.ref
+
+    def record_effects(self, effects, facts, outcome, value):
+        d = self.direction
+        for e in effects:
+            k = e[0]
+            if k in ("read", "xread", "write", "wvarint", "varint", "seek", "tell", "getvalue", "close", "flush"):
+                s = e[1]
+                site = e[-1]
+                detail = ""
+                if k == "read":
+                    n = e[2]
+                    detail = "size=None" if n is None else ("size=const" if not isinstance(n, Sym) else "size=expr")
+                    w = e[3]
+                    checked = any(f[1] and f[0] in (("eq", ("len", w), term_of(n)), ("eq", term_of(n), ("len", w))) for f in facts)
+                    used = self.term_used(w, effects, value, after=e)
+                    detail += ";checked" if checked else (";unchecked-used" if used and outcome in ("return", "next") else ";unchecked-unused")
+                elif k == "write":
+                    b = e[2]
+                    if isinstance(b, bytes):
+                        detail = "bytes"
+                    elif isinstance(b, Sym):
+                        kd = self.I.kind_of(b, Run())
+                        detail = "bytes" if kd == "bytes" else f"non-bytes:{kd}:{b.term[0]}"
+                    else:
+                        detail = f"non-bytes:{type(b).__name__}"
+                    if self.term_used(e[3], effects, value, after=e):
+                        detail += ";result-used"
+                self.bump((d, k, s.kind, site, detail))
+            elif k == "stream-other":
+                self.bump((d, "other:" + e[2], e[1].kind, e[-1], ""))
+            elif k == "alloc":
+                self.bump((d, "alloc", "local", e[2], "with-initial-bytes" if e[3] is not None else ""))
+            elif k == "codec":
+                self.bump((d, "codec", e[1].kind, e[-1], ""))
+            elif k == "mutate":
+                pre = getattr(e[1], "uid", 0) < self.path_base
+                self.bump((d, "mutate", type(e[1]).__name__, e[3], f"{e[2]};{'pre-existing' if pre else 'local'}"))
+            elif k in ("raise-site", "may-raise"):
+                key = (d, e[1], e[2], self.root, k)
+                self.raises[key] = self.raises.get(key, 0) + 1
+            elif k == "repeat":
+                for facts2, effs2, out2, val2 in e[2]:
+                    self.record_effects(effs2, list(facts) + list(facts2), out2, val2)
+                    if out2 == "raise":
+                        key = (d, self.exc_ref(val2.cls), val2.attrs.get("__site__", ""), self.root, "raise")
+                        self.raises[key] = self.raises.get(key, 0) + 1
+
+    def term_used(self, w, effects, value, after) -> bool:
+        def has(t):
+            if t == w:
+                return True
+            if isinstance(t, tuple):
+                return any(has(x) for x in t)
+            return False
+        seen = False
+        for e in effects:
+            if e is after:
+                seen = True
+                continue
+            if not seen:
+                continue
+            for x in e[1:]:
+                if isinstance(x, (Sym, tuple)) and has(term_of(x) if not isinstance(x, tuple) else x):
+                    return True
+        if value is not None and not isinstance(value, Obj):
+            return has(term_of(value))
+        if isinstance(value, InstV):
+            return has(term_of(value))
+        return False
+
+    def bump(self, key):
+        self.log[key] = self.log.get(key, 0) + 1
+
+    def record(self, paths):
+        for p in paths:
+            self.record_effects(p.effects, p.facts, p.outcome, p.value)
+            if p.outcome == "raise":
+                key = (self.direction, self.exc_ref(p.value.cls), p.value.attrs.get("__site__", ""), self.root, "raise")
+                self.raises[key] = self.raises.get(key, 0) + 1
+            for n in p.notes:
+                if n and n[0] == "handled":
+                    k = (self.direction, n[1], n[2])
+                    self.handled[k] = self.handled.get(k, 0) + 1
 
     def classify_atom(self, f, absargs, paths):
         streams = [p for p, v in absargs.items() if isinstance(v, StreamV)]
@@ -253,9 +349,18 @@ class Analyzer:
         raise Limit(f"unknown atom {atom['kind']}")
 
     # ------------------------------------------------------------------ entry points
-    def paths(self, fn, args, kwargs=None) -> list[Path]:
+    def paths(self, fn, args, kwargs=None, direction=None) -> list[Path]:
         I = self.I
-        ps = I.explore(lambda run: I.call(fn, list(args), dict(kwargs or {}), run, None))
-        self.stats["paths"] += len(ps)
-        self.stats["summaries"] += 1
+        from .values import _ids
+        self.path_base = next(_ids)
+        prev = (self.direction, self.root)
+        self.direction = direction or ("r" if len(args) == 1 else "w")
+        self.root = getattr(fn, "ref", repr(fn))
+        try:
+            ps = I.explore(lambda run: I.call(fn, list(args), dict(kwargs or {}), run, None))
+            self.stats["paths"] += len(ps)
+            self.stats["summaries"] += 1
+            self.record(ps)
+        finally:
+            self.direction, self.root = prev
         return ps
